@@ -225,8 +225,8 @@ def applyEffs (es : List PEff) (p : PImg) : PImg := es.foldl (fun p e => applyEf
 /-- what reaches the disk of a page write that is torn in the middle (first half of the page
     persists, 512-byte sectors are atomic): meta fields, catalog entries, blob/segment contents of
     the sizes used here and B-tree page headers + slot arrays lie in the first half; a node-table
-    slot ≥ 256 and a freshly appended leaf cell (cells grow downwards from the page end; while
-    27·(n+1) ≤ 4096) lie in the second half. -/
+    slot ≥ 256, a freshly appended leaf cell (cells grow downwards from the page end; while
+    27·(n+1) ≤ 4096) and the cells of an internal root lie in the second half. -/
 def tornEff (p : PImg) : PEff → Option PEff
   | .slot i x => if i < 256 then some (.slot i x) else none
   | .leaf k i es sib pid =>
@@ -235,7 +235,18 @@ def tornEff (p : PImg) : PEff → Option PEff
     | some oes =>
       if es.length = oes.length + 1 ∧ es.take oes.length = oes ∧ 27 * es.length ≤ 4096
       then some (.leaf k i (oes ++ [none]) sib pid) else some (.leaf k i es sib pid)
-    | none => some (.leaf k i es sib pid)
+    | none =>
+      -- a leaf on a fresh page (the right half of a split): the cells in the second half of the
+      -- page — the first ⌊4096/27⌋ ones, cells grow downwards from the page end — do not persist
+      some (.leaf k i ((List.range es.length).map (fun j => if 27 * (j + 1) ≤ 4096 then none else es.getD j none)) sib pid)
+  | .inode k seps pid =>
+    -- an internal root that is REWRITTEN in place (a separator appended after a leaf split): the
+    -- new header and slot array persist, the new cell (second half of the page) does not — the
+    -- descent reads garbage and every lookup through this root fails.  A root written to a fresh
+    -- page is not reachable before the write that links it.
+    match (p.trees.find? (fun t => t.key == k)).bind (·.inode) with
+    | some _ => some (.inode k (List.replicate (seps.length + 2) 0) pid)
+    | none => some (.inode k seps pid)
   | e => some e
 
 /-- per unsynced operation: lost, persisted, or torn -/
@@ -307,5 +318,20 @@ def treeHas (p : PImg) (key : Nat) (top : Bool) (q : Nat) : Bool :=
         | some seps => leafFind t.leaves (route seps q) q
       else leafFind t.leaves 0 q
     found && t.blobs.contains q
+
+/-- does the prefix scan of a node's properties (`extend_node_properties_from_store`) get started:
+    its lower-bound seek (for a key just below `q0`, the node's first property) descends from the
+    internal root; it fails — and the whole scan of that node returns nothing — when the root is
+    the garbage a torn in-place rewrite leaves (`tornEff`) or when the child it is sent to is a
+    page that did not persist.  (Running into such a page later, over a sibling link, just ends
+    the scan.) -/
+def scanSeekOk (p : PImg) (key : Nat) (top : Bool) (q0 : Nat) : Bool :=
+  !top || match p.trees.find? (fun t => t.key == key) with
+    | some t =>
+      (match t.inode with
+       | some seps =>
+         !(decide (2 ≤ seps.length) && seps.all (· == 0)) && decide ((seps.filter (· < q0)).length < t.leaves.length)
+       | none => false)
+    | none => false
 
 end Nervus.Crash
